@@ -65,6 +65,7 @@ type ClientObs struct {
 	OllaHdrs [][2]string `json:"olla_headers"`
 	CT       string      `json:"content_type"`
 	Ms       int64       `json:"ms"`
+	Interims []string    `json:"interims,omitempty"` // backends whose interim (1xx) responses reached the client, in order
 }
 
 type Obs struct {
@@ -91,7 +92,7 @@ func hexOrSha(b []byte) string {
 }
 
 func observeClient(r *stack.Resp) ClientObs {
-	o := ClientObs{Err: r.Err, Status: r.Status, Headers: stack.EndToEnd(r.Header), BodyHex: hexOrSha(r.Body), BodyLen: len(r.Body), Complete: r.Complete, Ms: r.Ms}
+	o := ClientObs{Err: r.Err, Status: r.Status, Headers: stack.EndToEnd(r.Header), BodyHex: hexOrSha(r.Body), BodyLen: len(r.Body), Complete: r.Complete, Ms: r.Ms, Interims: r.Interims}
 	if ct := r.Header["Content-Type"]; len(ct) > 0 {
 		o.CT = ct[0]
 	}
